@@ -126,18 +126,16 @@ GUARD_RULES = [
     # (file suffix, kind, text substring) -> Guard constructor   (no function names: see the site key)
     (("cfg_checker.py", "dict_subscript", "map1[x]"), "useDefNoInternalError"),
     (("cfg_checker.py", "dict_subscript", "map2[x]"), "useDefNoInternalError"),
-    (("cfg_checker.py", "dict_subscript", "compiled[bb]"), "useDefNoInternalError"),
     (("cfg_checker.py", "assert", "branch_pred is not None"), "twoSuccessorsHavePred"),
     (("linearity_checker.py", "assert", "branch_pred is not None"), "twoSuccessorsHavePred"),
-    (("expr_checker.py", "internal", "chained comparison"), "bldResidualNoLifts"),
-    (("expr_checker.py", "internal", "BB contains `NamedExpr`"), "bldResidualNoLifts"),
-    (("expr_checker.py", "internal", "BB contains `BoolOp`"), "bldResidualNoLifts"),
-    (("expr_checker.py", "internal", "BB contains `IfExp`"), "bldResidualNoLifts"),
-    (("builder.py", "internal", "Continue BB not defined"), "loopBodyHasJumpTargets"),
-    (("builder.py", "internal", "Break BB not defined"), "loopBodyHasJumpTargets"),
     (("expr_checker.py", "zip_strict", "inputs, func_ty.inputs"), "arityChecked"),
     (("expr_checker.py", "internal", "is not defined in `TypeSynthesiser`"), "namesResolved"),
 ]
+# Deliberately NOT guarded (audit F5): the "BB contains BoolOp/IfExp/NamedExpr/chained comparison" sites (C03 `bld_residual` is about the
+# returned residual of one value-mode build, not about every expression stored in the blocks of `buildCfg`), "Break/Continue BB not
+# defined" (C03 `break_continue_target_innermost_loop` unfolds `.while` only, no `loopScoped p -> no error` theorem), and the
+# `compiled[bb]` subscripts of check_cfg (C08 `no_internal_error` is about check_rows_match's lookups and the queue index, not about every
+# reachable block having been compiled).
 WHY = {
     "assert": "assertion on an internal invariant; no model",
     "internal": "explicit InternalGuppyError on an internal invariant; no model",
